@@ -32,6 +32,9 @@ struct Seen {
     writes: u64,
     /// state seen by the last `tick`
     tick_pos: u64,
+    /// what the state's estimator methods returned inside the last `tick`
+    tick_rate_bits: u64,
+    tick_eta: Duration,
     /// state seen by the last `reset`: (position, finished)
     reset_saw: Option<(u64, bool)>,
 }
@@ -47,6 +50,8 @@ impl ProgressTracker for Tracker {
         let mut s = self.0.lock().unwrap();
         s.ticks += 1;
         s.tick_pos = state.pos();
+        s.tick_rate_bits = state.per_sec().to_bits();
+        s.tick_eta = state.eta();
     }
     fn reset(&mut self, state: &ProgressState, _now: Instant) {
         let mut s = self.0.lock().unwrap();
@@ -160,6 +165,10 @@ fn run_keys(c: &KeyCase) -> CaseResult {
         .unwrap()
         .tick_strings(&TICKS)
         .progress_chars("#>-")
+        // (a key registered twice: the later registration is the one in force)
+        .with_key("trk", |_: &ProgressState, w: &mut dyn std::fmt::Write| {
+            let _ = w.write_str("replaced");
+        })
         .with_key("trk", Tracker(seen.clone()))
         // registered but not part of the template until the end of the case
         .with_key("trk_unshown", Tracker(unshown.clone()));
@@ -298,6 +307,15 @@ fn run_keys(c: &KeyCase) -> CaseResult {
         eq!("trk", format!("T{}R{}", s.ticks, s.resets), "tracker");
         if matches!(op, Op::Inc(_) | Op::Dec(_) | Op::SetPos(_) | Op::Update(_)) {
             ensure!(s.tick_pos == pos, "tracker", "{ctx}: the tick notification saw position {} instead of {pos}", s.tick_pos);
+            // ... and the current estimate: the clock is frozen, so per_sec()/eta() of the state it was handed
+            // are the getter values of this very instant
+            ensure!(
+                s.tick_rate_bits == ps.to_bits() && s.tick_eta == eta,
+                "tracker",
+                "{ctx}: the tick notification saw per_sec {} / eta {:?}, the getters give {ps} / {eta:?} at the same instant",
+                f64::from_bits(s.tick_rate_bits),
+                s.tick_eta
+            );
         }
         // bar lines exist and have the stated width
         let bar = field(&lines, "bar")?;
